@@ -287,10 +287,13 @@ def check_misc(run, cx, cfg, only=None):
             if len(cps) == 1:
                 ce = [e for k, e in call_events(cps[0])]
                 # core::cmp::min(a, b)  or the method spelling a.min(b) (Ord::min)
+                X = ('ref', (('L', 'x', 0), ()))
+                elem = (('deref', X), strip_epoch(deref(cps[0], X)))
                 okm = len(ce) == 1 and (rp(ce[0]) == 'core::cmp::min' or (ce[0]['name'] == 'min' and ce[0].get('trait') == 'core::cmp::Ord')) \
-                    and ce[0]['args'][0] == ('acc',) and cps[0]['ret'] == ce[0]['result']
+                    and cps[0]['ret'] == ce[0]['result'] and len(ce[0]['args']) == 2 \
+                    and ((ce[0]['args'][0] == ('acc',) and strip_epoch(ce[0]['args'][1]) in elem) or (ce[0]['args'][1] == ('acc',) and strip_epoch(ce[0]['args'][0]) in elem))
                 r = cps[0]['ret']
-                okm = okm or (r[0] == 'app' and r[1].endswith('min'))
+                okm = okm or (r[0] == 'app' and r[1].endswith('min') and len(r[2]) == 2 and ('acc',) in r[2] and any(strip_epoch(a) in elem for a in r[2]))
             if not okm:
                 bad = 'fold closure must be min(acc, *offset)'
                 break
